@@ -83,13 +83,14 @@ class JournalFileBackend(BaseJournalBackend):
                     self._log_number_offset[log_number + 1] = (
                         self._log_number_offset[log_number] + byte_len
                     )
-                if log_number < log_number_from:
-                    continue
-
                 # Ensure that each line ends with line separators (\n, \r\n).
+                # This must be checked for skipped lines, too: the offset of the next log must
+                # not be cached from a line that is still being written.
                 if not line.endswith(b"\n"):
                     last_decode_error = ValueError("Invalid log format.")
                     del self._log_number_offset[log_number + 1]
+                    continue
+                if log_number < log_number_from:
                     continue
                 try:
                     logs.append(json.loads(line))
